@@ -75,7 +75,7 @@ func genOptsFor(profile string) GenOpts {
 		o.NoTies = true
 	case "nostartend":
 		o.NoStartEnd = true
-	case "pairs", "hist":
+	case "pairs", "hist", "subpairs":
 		o.Focus = profile
 	case "selpair":
 		o.Focus = profile
